@@ -170,53 +170,56 @@ StructVal(P, vf, sf, s, m) ==
 (*   state: obj = [s |-> [field |-> VALUE]]                                *)
 (*   actions: New (NewX()), Zero (new(X)), InitDefault, Set(field, value)  *)
 (*   observations: the fields, Get<F>(), IsSet<F>()                        *)
-NewObj(P, f, s)  == LET sd == File(P, f).structs[s] IN [s |-> [n \in FieldNames(sd) |-> FieldInit(P, f, FieldOf(sd, n))]]
+\* the declared defaults of all fields of struct s (evaluated once per object machine)
+Defaults(P, f, s) == LET sd == File(P, f).structs[s] IN [n \in FieldNames(sd) |-> FieldInit(P, f, FieldOf(sd, n))]
+NewObj(P, f, s)  == [s |-> Defaults(P, f, s)]
 ZeroObj(P, f, s) == LET sd == File(P, f).structs[s] IN [s |-> [n \in FieldNames(sd) |-> ZeroOf(P, f, FieldOf(sd, n))]]
-InitDefault(P, f, s, obj) ==
+InitDefault(P, f, s, D, obj) ==
   LET sd == File(P, f).structs[s] IN
-  [s |-> [n \in FieldNames(sd) |-> IF NoDef(FieldOf(sd, n)) THEN obj.s[n] ELSE FieldInit(P, f, FieldOf(sd, n))]]
+  [s |-> [n \in FieldNames(sd) |-> IF NoDef(FieldOf(sd, n)) THEN obj.s[n] ELSE D[n]]]
 SetField(obj, n, v) == [s |-> [obj.s EXCEPT ![n] = v]]
 
 Kind(P, f, fl) == Resolve(P, f, fl.type).k
 HasIsSet(P, f, fl) == fl.req = "optional" \/ Kind(P, f, fl) = "struct"
 \* a binary holding nothing and an empty binary are the same content
 Content(P, f, fl, v) == IF Kind(P, f, fl) = "binary" /\ IsNil(v) THEN [a |-> "bin#0"] ELSE v
-\* DESIGN rule: set iff (pointer / container: holds something) or (scalar with a default: differs from the default)
-IsSet(P, f, fl, held) ==
+\* DESIGN rule: set iff (pointer / container: holds something) or (scalar with a default: differs from the default d)
+IsSet(P, f, fl, d, held) ==
   IF NoDef(fl) \/ Kind(P, f, fl) \in {"struct", "list", "set", "map"} THEN ~IsNil(held)
-  ELSE Content(P, f, fl, held) # FieldInit(P, f, fl)
-Getter(P, f, fl, held) ==
+  ELSE Content(P, f, fl, held) # d
+Getter(P, f, fl, d, held) ==
   IF ~HasIsSet(P, f, fl) THEN held
-  ELSE IF IsSet(P, f, fl, held) THEN held
+  ELSE IF IsSet(P, f, fl, d, held) THEN held
   ELSE IF NoDef(fl) THEN (IF Kind(P, f, fl) \in {"struct", "list", "set", "map", "binary"} THEN NIL
                           ELSE [a |-> ZeroAtom(Kind(P, f, fl))])
-  ELSE FieldInit(P, f, fl)
+  ELSE d
 
 \* what the property statement demands of IsSet: an optional field holding a value different from its declared
 \* default reports itself as set
-MustBeSet(P, f, fl, held) ==
-  fl.req = "optional" /\ ~NoDef(fl) /\ ~IsNil(held) /\ Content(P, f, fl, held) # FieldInit(P, f, fl)
+MustBeSet(P, f, fl, d, held) ==
+  fl.req = "optional" /\ ~NoDef(fl) /\ ~IsNil(held) /\ Content(P, f, fl, held) # d
 
-Obs(P, f, s, obj) ==
+Obs(P, f, s, D, obj) ==
   LET sd == File(P, f).structs[s]
       Opt == {n \in FieldNames(sd) : HasIsSet(P, f, FieldOf(sd, n))} IN
   [v |-> obj,
-   get |-> [n \in FieldNames(sd) |-> Getter(P, f, FieldOf(sd, n), obj.s[n])],
-   isset |-> [n \in Opt |-> IsSet(P, f, FieldOf(sd, n), obj.s[n])],
-   must |-> [n \in Opt |-> MustBeSet(P, f, FieldOf(sd, n), obj.s[n])],
+   get |-> [n \in FieldNames(sd) |-> Getter(P, f, FieldOf(sd, n), D[n], obj.s[n])],
+   isset |-> [n \in Opt |-> IsSet(P, f, FieldOf(sd, n), D[n], obj.s[n])],
+   must |-> [n \in Opt |-> MustBeSet(P, f, FieldOf(sd, n), D[n], obj.s[n])],
    \* the statement speaks about getters of optional fields with a declared default
    getdem |-> [n \in Opt |-> FieldOf(sd, n).req = "optional" /\ ~NoDef(FieldOf(sd, n))]]
 
 \* run a trace of steps [op |-> "new"|"zero"|"init"|"set"|"obs", (f, v)] ; the result is the sequence of observations
-RECURSIVE Run(_, _, _, _, _, _)
-Run(P, f, s, obj, tr, i) ==
+RECURSIVE RunD(_, _, _, _, _, _, _)
+RunD(P, f, s, D, obj, tr, i) ==
   IF i > Len(tr) THEN <<>>
   ELSE LET st == tr[i] IN
-       CASE st.op = "new"  -> Run(P, f, s, NewObj(P, f, s), tr, i + 1)
-         [] st.op = "zero" -> Run(P, f, s, ZeroObj(P, f, s), tr, i + 1)
-         [] st.op = "init" -> Run(P, f, s, InitDefault(P, f, s, obj), tr, i + 1)
-         [] st.op = "set"  -> Run(P, f, s, SetField(obj, st.f, st.v), tr, i + 1)
-         [] st.op = "obs"  -> <<Obs(P, f, s, obj)>> \o Run(P, f, s, obj, tr, i + 1)
+       CASE st.op = "new"  -> RunD(P, f, s, D, [s |-> D], tr, i + 1)
+         [] st.op = "zero" -> RunD(P, f, s, D, ZeroObj(P, f, s), tr, i + 1)
+         [] st.op = "init" -> RunD(P, f, s, D, InitDefault(P, f, s, D, obj), tr, i + 1)
+         [] st.op = "set"  -> RunD(P, f, s, D, SetField(obj, st.f, st.v), tr, i + 1)
+         [] st.op = "obs"  -> <<Obs(P, f, s, D, obj)>> \o RunD(P, f, s, D, obj, tr, i + 1)
+Run(P, f, s, obj, tr, i) == RunD(P, f, s, Defaults(P, f, s), obj, tr, i)
 
 \* a value of the field's type that differs from d (an input for Set, not an oracle)
 ZeroElem(P, f, t) ==
